@@ -10,6 +10,7 @@ import (
 
 	sdk "github.com/cosmos/cosmos-sdk/types"
 
+	transfertypes "github.com/cosmos/ibc-go/v10/modules/apps/transfer/types"
 	channeltypes "github.com/cosmos/ibc-go/v10/modules/core/04-channel/types"
 
 	providertypes "github.com/cosmos/interchain-security/v7/x/ccv/provider/types"
@@ -185,6 +186,16 @@ func (m *monC13) consumersOfTx(o TxOutcome) (ids []string, kind string) {
 		case *channeltypes.MsgRecvPacket:
 			if id, ok := m.consumerOfChannel(t.Packet.DestinationPort, t.Packet.DestinationChannel); ok {
 				ids, kind = append(ids, id), "recv-packet"
+			}
+			if t.Packet.DestinationPort == "transfer" {
+				// a token transfer into the rewards pool concerns the consumer its reward memo names: that is how the protocol
+				// identifies whose rewards these are (any user of any consumer chain can send one; observation O4 in DESIGN.md)
+				var d transfertypes.FungibleTokenPacketData
+				if err := transfertypes.ModuleCdc.UnmarshalJSON(t.Packet.Data, &d); err == nil {
+					if rm, err := ccv.GetRewardMemoFromTransferMemo(d.Memo); err == nil && rm.ConsumerId != "" {
+						ids, kind = append(ids, rm.ConsumerId), "recv-packet"
+					}
+				}
 			}
 		case *channeltypes.MsgAcknowledgement:
 			if id, ok := m.consumerOfChannel(t.Packet.SourcePort, t.Packet.SourceChannel); ok {
